@@ -1012,6 +1012,12 @@ func slReplay(args []string) int {
 			return 2
 		}
 		coreStats = st
+		lst, err := slRunLatest(x, universes)
+		if err != nil {
+			fmt.Fprintln(os.Stderr, "latest-height leg failed:", err)
+			return 2
+		}
+		coreStats["latest_pairs"] = lst
 	}
 	x.flushAggs()
 	if err := x.w.Flush(); err != nil {
